@@ -45,6 +45,7 @@ def run(tier: str, seed: int) -> int:
     recs, meta = [], []
     raised = 0
     cleanup_dirs = []
+    mode_no = seed
     with dask.config.set(scheduler="synchronous"):
         nframes = 3 if quick else 30
         for kind in geom.KINDS:
@@ -64,7 +65,10 @@ def run(tier: str, seed: int) -> int:
                                       "shape": shape}).set_geometry("shape")
                 tb = df.geometry.array.total_bounds
                 for inparts in ([1, 3] if quick else [1, 2, 3]):
-                    mode = rng.choice(["plain", "filtered", "sorted", "touched-filtered", "repacked", "repacked-filtered", "indexed", "indexed", "dataset-bounded"])
+                    # every history mode in turn (a random draw once left a mode out of the quick tier)
+                    MODES = ["plain", "filtered", "sorted", "touched-filtered", "repacked", "repacked-filtered", "indexed", "dataset-bounded"]
+                    mode_no += 1
+                    mode = MODES[mode_no % len(MODES)]
                     if mode == "dataset-bounded" and len(df) < 12:
                         mode = "plain"
                     src = df
